@@ -105,6 +105,9 @@ func stdJudge(c *Ctx, cs *Case, ro RunOpts, jo JudgeOpts) (string, *ModelOut, *O
 	if m.Res != nil && m.Res.OOD != "" {
 		c.Count("skipped_out_of_domain", 1)
 		c.Count("ood:"+oodClass(m.Res.OOD), 1)
+		if strings.Contains(m.Res.OOD, "model's cap") {
+			return "skip", m, &Obs{} // memory-exhausting program: do not run it at all
+		}
 		// still run the real code: abnormal termination is a violation regardless
 		o := RunLib(cs.Src, withBudget(ro, 3000)) // small budget: unbounded recursion is out of domain and must not exhaust the host stack
 		if o.Panic != "" {
